@@ -335,6 +335,12 @@ def caller_history(r, pfx, avoid):
                 n = 2 ** max(0, k)
             return {"fields": f, "nrows": n, "dseed": r.randrange(1 << 30)}
 
+        def nd_of(t):
+            # rarely the chunk is handed over as a C-contiguous 2-d array of the same rows
+            n_ = t["nrows"]
+            divs = [a for a in range(2, min(n_, 12)) if n_ % a == 0 and n_ // a > 1]
+            return [pick(r, divs), 0] if divs and chance(r, 0.05) else None
+
         if s["h"] is not None:
             x = r.random()
             if x < 0.45:
@@ -342,7 +348,11 @@ def caller_history(r, pfx, avoid):
                 if f is not None and form == "txt" and chance(r, 0.3):
                     f = other_order(f)
                 t = chunk(f)
-                ops.append({"k": "write", "h": s["h"], "tab": t, "hdr": T.gen_header(r, True) if chance(r, 0.3) else None})
+                wop = {"k": "write", "h": s["h"], "tab": t, "hdr": T.gen_header(r, True) if chance(r, 0.3) else None}
+                nd = nd_of(t)
+                if nd:
+                    wop["nd"] = [nd[0], t["nrows"] // nd[0]]
+                ops.append(wop)
                 if s["fields"] is None:
                     s["fields"] = t["fields"]
                 s["exists"] = True
@@ -406,8 +416,12 @@ def caller_history(r, pfx, avoid):
             if form == "txt" and chance(r, 0.3):
                 f = other_order(f)
             ents = ["sfile.write.append", "io.write.append", "SFile.r+"] if s["form"] == "sfile" else ["Recfile.r+", "recfile.write.r+"]
-            ops.append({"k": "append", "p": p, "entry": pick(r, ents), "delim": s["delim"], "tab": chunk(f),
-                        "hdr": T.gen_header(r, True) if chance(r, 0.3) else None})
+            aop = {"k": "append", "p": p, "entry": pick(r, ents), "delim": s["delim"], "tab": chunk(f),
+                   "hdr": T.gen_header(r, True) if chance(r, 0.3) else None}
+            nd = nd_of(aop["tab"])
+            if nd:
+                aop["nd"] = [nd[0], aop["tab"]["nrows"] // nd[0]]
+            ops.append(aop)
         elif x < 0.37 and s["form"] == "sfile":
             f2, how = incompatible(r, s["fields"], form)
             ops.append({"k": "append", "p": p, "entry": pick(r, ["sfile.write.append", "io.write.append", "SFile.r+"]),
